@@ -25,6 +25,7 @@ def main():
     ap.add_argument("--desc", default="")
     ap.add_argument("--tier", default="quick")
     ap.add_argument("--skip-confirm", action="store_true")
+    ap.add_argument("--no-restore", action="store_true", help="do not re-run the checks on the unchanged tree afterwards (the caller does it once at the end)")
     ap.add_argument("--no-checks", action="store_true", help="only confirm and store the seed; run the checks later with --skip-confirm")
     ap.add_argument("--features", default="", help="cargo feature flags for the demo, e.g. '--features ram_bundle'")
     ap.add_argument("--rustflags", default="", help="RUSTFLAGS for the demo, e.g. '--cfg sourcemap_verif'")
@@ -93,7 +94,7 @@ def main():
     finally:
         sh("git -C /repo checkout -- .")
     # restore evidence on the unchanged tree
-    for c in checks:
+    for c in ([] if a.no_restore else checks):
         sh("./check %s --tier quick" % c, cwd=VERIF, timeout=7200)
     meta.update({"seed": a.seed, "breaks_property": a.prop})
     if a.desc:
